@@ -1145,6 +1145,11 @@ class H2Connection:
         if origin is None and stream_id is None:
             raise ValueError("Must provide one of origin and stream_id")
 
+        if self.config.client_side:
+            raise ProtocolError(
+                "Only servers can advertise alternative services"
+            )
+
         self.state_machine.process_input(
             ConnectionInputs.SEND_ALTERNATIVE_SERVICE
         )
